@@ -29,6 +29,7 @@ Paths may end in ' of framer', ' of framer main', ' of frame', ' of frame main' 
 Need:
   ('cmp', path, op, goal, tol|None, neg)    direct goal (python value)
   ('cmpi', path, op, goalpath, tol|None, neg)
+  item ('acc', ctx): `do acc at ctx` - appends to a list kept in the share framer.me.acclog and records its length
   ('bool', path, neg)
   ('elapsed', op, goal, neg) / ('recurred', op, goal, neg)
   ('done', tasker, neg)                     <tasker> is done
@@ -116,7 +117,9 @@ def emit_item(it, ind):
         out.append(ind + "  " + line)
         out.append(ind + "native")
 
-    if k == "rec":
+    if k == "acc":        # ('acc', ctx): harness doer keeping a per-FRAMER list (ioinit ipath framer.me.acclog, ival [])
+        out.append(ind + 'do acc at %s' % (it[1],))
+    elif k == "rec":
         out.append(ind + 'do rec with tag "%s" at %s' % (it[2], it[1]))
     elif k == "go":
         s = "go %s" % it[1]
